@@ -65,7 +65,7 @@ def payload_root(ctx, fl, payload, enc_terms):
         if tag != env_tag:
             return None, 'hand-built payload is tagged %s, not the envelope tag %s' % (tag, env_tag)
         u = strip_into(strip_sites(tv[1]))
-        for case, (val, site) in enc_terms.items():
+        for case, (val, site, _b, _bi) in enc_terms.items():
             if strip_into(strip_sites(val)) == u:
                 return ('param', 1), 'hand-built = encoder arm %s' % case
         return None, 'hand-built payload body matches no encoder arm: %s' % fmt(tv[1])
